@@ -11,7 +11,7 @@ import ast
 import copy
 from typing import Any, Dict, List, Optional, Sequence, Set, Tuple
 
-from ..core import AnalysisError, Loc, Report, Source, norm
+from ..core import IdiomNotRecognised, AnalysisError, Loc, Report, Source, norm
 from ..flow import Ctx, FlowWalker, State
 from ..handlers import FnRef, concrete_handlers, implementations
 from ..pyfront import ClassInfo, Program, body_without_docstring, param_names, self_attr
@@ -103,7 +103,7 @@ class LiftRoles:
         rest = [s for s in self.scalars if s not in (self.pos, self.rec)]
         self.sump = rest[0] if len(rest) == 1 else None
         if not all([self.neg, self.ids, self.pos, self.rec, self.sump]) or set(self.lists) != {self.neg, self.ids}:
-            raise AnalysisError(f"lifting attributes not identified by role: neg={self.neg} ids={self.ids} pos={self.pos} "
+            raise IdiomNotRecognised(f"lifting attributes not identified by role: neg={self.neg} ids={self.ids} pos={self.pos} "
                                 f"rec={self.rec} sum={self.sump}")
 
     def method(self, cls: ClassInfo, name: str) -> Optional[ast.FunctionDef]:
@@ -541,10 +541,14 @@ def check_use_sites(prog: Program, rep: Report) -> None:
     for mi, ci, fn in prog.functions():
         if ci is None or not prog.is_subclass(ci, "EventHandler"):
             continue
+        RU = None
         for call in ast.walk(fn):
             if isinstance(call, ast.Call) and isinstance(call.func, ast.Attribute) and call.func.attr == "insert" \
                     and self_attr(call.func.value) and len(call.args) == 3:
-                rate, ident, active = call.args
+                RU = RU or Resolver(fn)
+                # the arguments as defined at this call (locals bound just before the call are read through)
+                loopvars_ = tuple(x.id for l in ast.walk(fn) if isinstance(l, ast.For) for x in ast.walk(l.target) if isinstance(x, ast.Name))
+                rate, ident, active = (RU.res(a_, keep=loopvars_) for a_ in call.args)
                 loc = Loc(mi.file, call.lineno, f"{ci.name}.{fn.name}")
                 a = norm(active)
                 ok_active = a == "False" or "_active_leaf_unit" in a
@@ -810,15 +814,23 @@ def analyse(src: Source) -> List[Report]:
         "scheme's own fields and random. Not decided: the balance identity (an integral over the uniform variable).")
     rep.assume("loops over leaf units run at least once (for the 'table filled before selection' fact only)")
     prog = Program(src)
-    roles = LiftRoles(prog)
-    rep.unit("lifting_schemes", len(roles.schemes))
-    check_insert(prog, rep, roles)
-    check_lockstep(prog, rep, roles)
-    check_selection(prog, rep, roles)
+    roles = None
+    try:
+        roles = LiftRoles(prog)
+    except IdiomNotRecognised as e:
+        # the lifting table is kept in a way the role discovery does not follow (e.g. one list of records): the rules on the table
+        # itself are undecided; the rules on its use sites still run
+        for r_ in ("R5.1-insert-effects", "R5.2-lock-step", "R5.3-selection-walk", "R5.6-selection-pure"):
+            rep.ob(r_, None, Loc(LIFT, 0, "Lifting"), "lifting table", f"idiom not recognised: {e}")
+    if roles is not None:
+        rep.unit("lifting_schemes", len(roles.schemes))
+        check_insert(prog, rep, roles)
+        check_lockstep(prog, rep, roles)
+        check_selection(prog, rep, roles)
+        check_purity(prog, rep, roles)
     check_use_sites(prog, rep)
     check_antisymmetry(prog, rep)
     check_insertion_order(prog, rep)
-    check_purity(prog, rep, roles)
     rep.expect_min("R5.1-insert-effects", 6)
     rep.expect_min("R5.2-lock-step", 4)
     rep.expect_min("R5.3-selection-walk", 3)
